@@ -34,7 +34,7 @@ inductive Role | server | client
 structure Params where
   /-- in `GRPCBroker.Accept` (mux branch) the listener is registered with the muxer BEFORE the knock loop goroutine is started -/
   registerFirst : Bool
-  /-- capacity of `GRPCServerMuxer.knockCh` / `blockedClientListener.waitCh` -/
+  /-- capacity of `GRPCServerMuxer.knockCh` (the host side's `blockedClientListener.waitCh` holds at least one token) -/
   tokenCap : Nat
   /-- environment assumption: establishments are sequential (see file header) -/
   sequential : Bool
@@ -308,9 +308,12 @@ was never accepted — takes that stream off the session and closes it, instead 
 unblocked next -/
 structure ClientCloseParams where
   discardsAnnounced : Bool
+  /-- `blockedClientListener.unblock` never blocks (a select with a default arm): it is called with the client muxer's lock
+  held, so a listener nobody is accepting on cannot hold up the knocks — and the `Accept`s — of every other id -/
+  unblockNeverBlocks : Bool
   deriving DecidableEq, Repr
 
-def ClientCloseParams.Good (C : ClientCloseParams) : Prop := C.discardsAnnounced = true
+def ClientCloseParams.Good (C : ClientCloseParams) : Prop := C.discardsAnnounced = true ∧ C.unblockNeverBlocks = true
 instance (C : ClientCloseParams) : Decidable C.Good := by unfold ClientCloseParams.Good; exact inferInstance
 
 /-- the host's session queue when the listener of `next` is unblocked by its knock, after the listener of `closed` was
@@ -318,6 +321,12 @@ closed; `tokenPending` = `closed`'s knock had been acknowledged and its stream n
 the order they were announced. -/
 def queueAtNextAccept (C : ClientCloseParams) (tokenPending : Bool) (closed next : Nat) : List Tag :=
   (if tokenPending && !C.discardsAnnounced then [Tag.brokered closed] else []) ++ [Tag.brokered next]
+
+/-- `knocks` knocks have been acknowledged for a host-side listener on which nobody is accepting (a second dial to a
+pending id is `knocks = 2`).  Is the client muxer's lock free afterwards, i.e. can the host still `Accept` another id and
+answer another id's knock?  (With a blocking send into the one-slot token channel the second knock's loop sits in that send
+WITH the lock.) -/
+def muxerLockFree (C : ClientCloseParams) (knocks : Nat) : Bool := C.unblockNeverBlocks || knocks ≤ 1
 
 /-- the stream the listener of `next` accepts: the head of the queue -/
 def nextAccepts (C : ClientCloseParams) (tokenPending : Bool) (closed next : Nat) : Option Tag :=
